@@ -1,0 +1,19 @@
+//go:build verif
+// +build verif
+
+package airtime
+
+// Client lemmas for /verif (tool: gov); never called by library code.
+func verifAssert(cond bool, label string) {}
+func verifAssume(cond bool)               {}
+
+// the number of payload symbols (hence the time on air) never decreases with the payload size
+func lemmaC20_airtime_monotonic(pl, sf int, cr CodingRate, header, ldro bool) {
+	verifAssume(0 <= pl && pl < 255 && 5 <= sf && sf <= 12)
+	a, err1 := CalculateLoRaPayloadSymbolNumber(pl, sf, cr, header, ldro)
+	b, err2 := CalculateLoRaPayloadSymbolNumber(pl+1, sf, cr, header, ldro)
+	if err1 != nil || err2 != nil {
+		return
+	}
+	verifAssert(b >= a, "monotonic")
+}
